@@ -164,3 +164,10 @@ def joined_offset(parts: "List[HedString]", j: "Int") -> "Int":
 def hash_tag_count(tags: "List[HedTag]", n: "Int") -> "Int":
     """how many of tags[:n] contain a '#' in their text"""
     return 0 if n <= 0 else hash_tag_count(tags, n - 1) + (1 if '#' in tags[n - 1].__str__ else 0)
+
+
+# ----------------------------------------------------------------------------- temporal context (C20)
+def covers(onsets, e, i):
+    """time point i lies strictly inside the process e: started at an earlier time point (not merely an earlier row of the same
+    time point) and not ended"""
+    return e.start_index < i and i < e.end_index and onsets[i] - e.start_time > 1e-9
